@@ -164,6 +164,9 @@ impl ValveProtocol {
                 let new_data = self.socket.receive(Some(buffer_size))?;
                 buffer = Buffer::<LittleEndian>::new(&new_data);
                 let chunk_packet = SplitPacket::new(engine, protocol, &mut buffer)?;
+                if chunk_packet.header != packets[0].header || chunk_packet.id != packets[0].id {
+                    return Err(PacketBad.context("Split packet of another response"));
+                }
                 packets.push(chunk_packet);
             }
 
@@ -214,12 +217,15 @@ impl ValveProtocol {
         let request_initial_packet = Packet::new(kind, payload).to_bytes();
         self.socket.send(&request_initial_packet)?;
 
+        const INFO: u8 = Request::Info as u8;
+        const PLAYERS: u8 = Request::Players as u8;
+        const RULES: u8 = Request::Rules as u8;
+
         let mut packet = self.receive(engine, protocol, PACKET_SIZE)?;
         while packet.kind == 0x41 {
             // 'A'
             let challenge = packet.payload;
 
-            const INFO: u8 = Request::Info as u8;
             let challenge_packet = Packet::new(
                 kind,
                 match kind {
@@ -232,6 +238,18 @@ impl ValveProtocol {
             self.socket.send(&challenge_packet)?;
 
             packet = self.receive(engine, protocol, PACKET_SIZE)?;
+        }
+
+        // Anything else is not the reply to this request (e.g. a late duplicate of an
+        // earlier reply that was still queued on the socket).
+        let is_expected_kind = match kind {
+            INFO => packet.kind == 0x49 || packet.kind == 0x6D, // 'I' or the obsolete 'm'
+            PLAYERS => packet.kind == 0x44,                     // 'D'
+            RULES => packet.kind == 0x45,                       // 'E'
+            _ => true,
+        };
+        if !is_expected_kind {
+            return Err(PacketBad.context("Unexpected response kind"));
         }
 
         Ok(packet.payload)
